@@ -103,4 +103,47 @@ CONFIG["C09"] = {
                     "'no row left NaN' follows from the row formula holding for every row index (NaN has no real-number model)"],
 }
 
+CONFIG["C02"] = {
+    "level": "exploration", "proof": False, "rtc": True,
+    "explanation": "Bounded run-time contract: real FullGrid matrices compared entrywise with kron(I,O_prop) + c_prop*kron(P_prop,I) built "
+                   "from the real sub-grid getters (c = 1, f^2, f), symmetry, empty diagonal, one stored pattern and entry order, positive "
+                   "entries, 6D volumes in grid order; both position modes, factors 0.5/2/3.",
+    "assumptions": ["the position-grid and rotation-grid matrices themselves are the subject of C03-C06"],
+}
+CONFIG["C05"] = {
+    "level": "exploration", "proof": False, "rtc": True,
+    "explanation": "Bounded run-time contract: real PositionGrid (spherical shells) compared entrywise with the closed formulas of the "
+                   "statement (volumes, adjacency, borders, distances, sums) built from the direction grid's areas/arcs/angles and the "
+                   "parsed radii, over three algorithms, N 4..42 (quick) / 4..162 (thorough) and six radial text forms.",
+    "assumptions": ["direction-grid areas, arcs and angles are the subject of C03"],
+}
+CONFIG["C12"] = {
+    "level": "exploration", "proof": False, "rtc": True,
+    "explanation": "Bounded run-time contract, exhaustive over all trajectories of length <= 6 (quick) / 8 (thorough) over {0,1,2,NaN}, "
+                   "tau 1..3, both window modes, plus random long trajectories: real MSM transition matrix vs brute-force counts, row "
+                   "sums, range, detailed balance w.r.t. visit counts, reversal invariance.",
+    "assumptions": [],
+}
+CONFIG["C13"] = {
+    "level": "exploration", "proof": False, "rtc": True,
+    "explanation": "Bounded run-time contract, exhaustive over matrices of size <= 5, all set partitions (also redundant / overlapping / "
+                   "reordered join lists), all deletion sets, all 2-step (quick) / 3-step (thorough) histories threading the index list, "
+                   "dense and csr, sizes 9-12 for set-order effects, and the four limit combinations of cut_and_merge, against an "
+                   "independent lumping oracle.",
+    "assumptions": [],
+}
+CONFIG["C17"] = {
+    "level": "exploration", "proof": False, "rtc": True,
+    "explanation": "Bounded run-time contract, exhaustive over the statement's language: all names of <= 4 tokens from 17 token kinds in "
+                   "every order for both roles (177k names) against an independent reading of the statement, idempotence, and "
+                   "construction of every standard name with N <= 60 / 150.",
+    "assumptions": [],
+}
+CONFIG["C19"] = {
+    "level": "exploration", "proof": False, "rtc": True,
+    "explanation": "Bounded run-time contract, exhaustive over the box (n_b, n_o) in {1..5}^2, n_t in {1,2,3}(,4), both modes, five getters "
+                   "on the real code: correct shape, ValueError, or (Cartesian, n_o < 3) the geometry library's error.",
+    "assumptions": [],
+}
+
 NOT_APPLICABLE = {}
